@@ -16,6 +16,8 @@ THEOREMS = {
         "Dawgs.C15.Props.tarjan_terminates",
         "Dawgs.C15.Props.tarjan_partition",
         "Dawgs.C15.Props.tarjan_correct_partial",
+        "Dawgs.C15.Props.tarjan_correct",
+        "Dawgs.C15.Props.tarjan_scc",
         "Dawgs.C15.Props.bidir_reachable_correct",
         "Dawgs.C15.Props.reach_cache_exact_fixed",
         "Dawgs.C15.Props.reach_cache_exact_refuted",
@@ -28,6 +30,7 @@ THEOREMS = {
         "Dawgs.C15.Props.c15_full_refuted",
         "Dawgs.C15.Props.c15_fixed_of_certificate",
         "Dawgs.C15.Props.c15_fixed_of_tarjan",
+        "Dawgs.C15.Props.c15_fixed",
     ],
 }
 
@@ -79,10 +82,10 @@ def finding_key(suite, ops, line, msg):
 
 def extra_coverage(ctx, stats):
     return {
-        "stated_goals_not_proved": ["Dawgs.C15.Props.tarjan_correct_full (per case: checkSCC on the implementation's output, see monitor)"],
-        "full_statements_refuted_for_live_code": ["reach_cache_exact false", "answers_history_independent false", "C15_full"],
-        "full_statements_proved_for_repaired_code": ["reach_cache_exact true", "answers_history_independent true",
-                                                     "C15_stmt true <= tarjan_correct_full"],
+        "stated_goals_not_proved": [],
+        "full_statements_refuted_for_live_code": ["reach_cache_exact false", "answers_history_independent false", "C15_full = C15_stmt false"],
+        "full_statements_proved_for_repaired_code": ["reach_cache_exact true", "answers_history_independent true", "C15_stmt true (c15_fixed)"],
+        "proved_for_both_variants": ["tarjan_correct (tarjan_correct_full)", "bidir_reachable_correct", "reach_dfs_terminates", "reach_cache_sound_partial"],
         "model_variant": _mode,
         "exhaustive_small_scope": {"graphs_n1": stats.get("gen.exhaustive_graphs_n1", 0), "graphs_n2": stats.get("gen.exhaustive_graphs_n2", 0),
                                    "graphs_n3": stats.get("gen.exhaustive_graphs_n3", 0), "graphs_n4": stats.get("gen.exhaustive_graphs_n4", 0),
@@ -97,7 +100,7 @@ SPEC = {
     "fallback_level": "other",
     "lean_modules": ["Dawgs.Props.C15"],
     "theorems_by_module": THEOREMS,
-    "gate_modules": ["Dawgs.Model.C15", "Dawgs.Spec.C15", "Dawgs.Proofs.C15", "Dawgs.Proofs.C15Tarjan", "Dawgs.Proofs.C15Lift", "Dawgs.Proofs.C15Sound", "Dawgs.Props.C15"],
+    "gate_modules": ["Dawgs.Model.C15", "Dawgs.Spec.C15", "Dawgs.Proofs.C15", "Dawgs.Proofs.C15Tarjan", "Dawgs.Proofs.C15Lift", "Dawgs.Proofs.C15Sound", "Dawgs.Proofs.C15TarjanFull", "Dawgs.Props.C15"],
     "suites": [{"name": "c15", "model_suite": "c15fixed" if _mode == "fixed" else "c15", "monitor_suite": "c15mon",
                 "keep_prefix": 2, "thorough_seeds": 2, "shrink_budget": 200}],
     "nontrivial": nontrivial,
@@ -118,27 +121,26 @@ SPEC = {
                     "single-threaded use of ReachabilityCache (the SIEVE locks are C16's subject)",
                     "full Tarjan correctness for ALL graphs is a stated goal (tarjan_correct_full); per case it is established by the verified certificate checker checkSCC run on the implementation's (= model's) output"],
     "extra_coverage": extra_coverage,
-    "explanation": "Proved for all inputs (Lean, no sorry): spec BFS = reachability; SCC certificate checker sound; Tarjan terminates and returns a partition "
-                   "on every digraph; bidirectional ComponentReachable exact and terminating on every digraph and direction; componentReachDFS terminates; "
-                   "its answers/cache never contain an unreachable component (both variants); the REPAIRED DFS keeps every cached binding exact and answers "
-                   "exactly for every contract-satisfying cache, capacity and history, hence history independence; lifted to the original graph: C15 for the "
-                   "repaired code follows from the one stated goal tarjan_correct_full, and holds outright for every graph whose Tarjan output passes the "
-                   "verified certificate checker (checked on every case of every run). Refuted by concrete witness for the code as it is: reach_cache_exact, "
-                   "answers_history_independent, C15_full (DESIGN F5; corpus + known_findings.json). Not proved: tarjan_correct_full (each emitted component "
-                   "strongly connected, edges only to earlier components).",
+    "explanation": "Proved for all inputs (Lean, no sorry, axioms within {propext, Classical.choice, Quot.sound}): spec BFS = reachability; SCC certificate "
+                   "checker sound; the transcribed iterative Tarjan terminates, returns a partition and is CORRECT on every well-formed digraph "
+                   "(tarjan_correct); bidirectional ComponentReachable exact and terminating on every digraph and direction; componentReachDFS terminates and "
+                   "never reports/caches an unreachable component (both variants); the REPAIRED DFS keeps every cached binding exact and answers exactly for "
+                   "every contract-satisfying cache, capacity and history, hence history independence; lifted to the original graph: c15_fixed = the whole "
+                   "property for the repaired code. Refuted by concrete witness for the code as it is: reach_cache_exact, answers_history_independent, "
+                   "C15_full (DESIGN F5; corpus + known_findings.json; fix = hooks/C15-fix.patch).",
 }
 
 MANIFEST = {
     "category": "proof",
     "technique": "Lean 4 invariant proofs over a transcription of algo/scc.go + algo/reach.go (bidirectional BFS, reach DFS over the proved SIEVE contract, verified SCC certificate checker) + differential correspondence with the Go code + BFS monitor on every answer",
     "text": "Lean theorems over ALL digraphs, directions, cache capacities and query histories for a line-by-line transcription of algo/scc.go and "
-            "algo/reach.go over the proved C16 SIEVE contract: verified SCC certificate checker; Tarjan terminates and partitions; bidirectional "
-            "ComponentReachable exact; reach DFS terminates and is sound; for the repaired DFS every cached entry stays exact under every query, every "
-            "eviction choice, every capacity (answers history independent) and C15 reduces to one stated goal (full Tarjan correctness), which the "
-            "certificate checker establishes per case at run time. For the code as it is the full statements are refuted by a two-query witness "
-            "(known finding F5, fix patch proposed). Model = implementation on every generated case (all digraphs <= 4 nodes x capacities, random <= 10 "
-            "nodes x scripts of 6-12 mixed calls), and a BFS monitor judges every implementation answer.",
-    "note": "Trusted: Lean kernel; the transcription (checked by the differential tie incl. cache statistics); roaring bitmaps, deque, CSR container "
-            "(C14) modelled as lists / Nat bit sets. Full Tarjan correctness for all graphs is stated (tarjan_correct_full), not proved; until then "
-            "the level for the SCC part is 'certificate checked per case'. The live code violates the reach-cache part (F5) until hooks/C15-fix.patch lands.",
+            "algo/reach.go over the proved C16 SIEVE contract: iterative Tarjan correct (partition, mutual reachability, acyclic condensation) via a "
+            "verified certificate checker; bidirectional ComponentReachable exact; reach DFS terminates and is sound; for the repaired DFS every cached "
+            "entry stays exact under every query, eviction choice and capacity, answers are history independent, and the whole property (every public "
+            "answer = plain BFS on the original graph) is a theorem (c15_fixed). For the code as it is the full statements are refuted by a two-query "
+            "witness (known finding F5, fix patch proposed). Model = implementation on every generated case (all digraphs <= 4 nodes x capacities, "
+            "random <= 10 nodes x scripts of 6-12 mixed calls, cache statistics included), and a BFS monitor judges every implementation answer.",
+    "note": "Trusted: Lean kernel; the transcription (checked by the differential tie); roaring bitmaps, deque, CSR container (C14) modelled as lists / "
+            "Nat bit sets. The live code violates the reach-cache part (F5) until hooks/C15-fix.patch lands; then set MODEL_MODE = 'fixed' in "
+            "lib/props/c15.py and the known_findings entry to 'fixed'.",
 }
